@@ -378,10 +378,45 @@ static void meta_clear(enc_out *o) {
 }
 
 /* run the encoder of `codec` into dst; fills o->written and metadata */
+/* Output-only metadata structs are handed to the encoder the way a caller
+ * that reuses one struct across calls hands them over: still holding the
+ * result of a previous encode of ANOTHER array of the same length (a decoy
+ * inside the codec's domain).  Nothing of it may survive into this call. */
+static uint64_t *g_decoy;
+static uint32_t *g_decoy32;
+static uint8_t *g_decoy_dst;
+static void decoy_prepare(int codec, long param, const uint64_t *xs, size_t n) {
+    g_decoy = realloc(g_decoy, (n + 1) * 8);
+    g_decoy32 = realloc(g_decoy32, (n + 1) * 4);
+    g_decoy_dst = realloc(g_decoy_dst, n * 20 + 4096);
+    for (size_t i = 0; i < n; i++) {
+        g_decoy[i] = (codec == C_ADAPTIVE && param == 4) ? (uint64_t)i * 2 + 1 : (xs[i] >> 1) + 3;
+        if (codec == C_BP32 || codec == C_BPD32) {
+            g_decoy[i] &= 0xFFFFFFFFULL;
+        }
+        g_decoy32[i] = (uint32_t)g_decoy[i];
+    }
+}
+
 static void encode_into(int codec, long param, uint8_t *dst, const uint64_t *xs,
                         const uint32_t *x32, size_t n, enc_out *o) {
     meta_clear(o);
     o->bits = 0;
+    switch (codec) {
+    case C_RLE:
+    case C_RLE_HDR:
+    case C_GAMMA:
+    case C_EDELTA:
+    case C_BP32:
+    case C_BP64:
+    case C_BPD32:
+    case C_BPD64:
+    case C_ADAPTIVE:
+        decoy_prepare(codec, param, xs, n);
+        break;
+    default:
+        break;
+    }
     switch (codec) {
     case C_DELTA_S:
         o->written = varintDeltaEncode(dst, (const int64_t *)xs, n);
@@ -432,6 +467,8 @@ static void encode_into(int codec, long param, uint8_t *dst, const uint64_t *xs,
     case C_RLE_HDR: {
         varintRLEMeta m;
         memset(&m, 0x5A, sizeof(m));
+        (void)(codec == C_RLE ? varintRLEEncode(g_decoy_dst, g_decoy, n, &m)
+                              : varintRLEEncodeWithHeader(g_decoy_dst, g_decoy, n, &m));
         o->written = codec == C_RLE ? varintRLEEncode(dst, xs, n, &m)
                                     : varintRLEEncodeWithHeader(dst, xs, n, &m);
         o->have_meta = 1;
@@ -444,6 +481,8 @@ static void encode_into(int codec, long param, uint8_t *dst, const uint64_t *xs,
     case C_EDELTA: {
         varintEliasMeta m;
         memset(&m, 0x5A, sizeof(m));
+        (void)(codec == C_GAMMA ? varintEliasGammaEncodeArray(g_decoy_dst, g_decoy, n, &m)
+                                : varintEliasDeltaEncodeArray(g_decoy_dst, g_decoy, n, &m));
         o->written = codec == C_GAMMA
                          ? varintEliasGammaEncodeArray(dst, xs, n, &m)
                          : varintEliasDeltaEncodeArray(dst, xs, n, &m);
@@ -460,6 +499,10 @@ static void encode_into(int codec, long param, uint8_t *dst, const uint64_t *xs,
     case C_BPD64: {
         varintBP128Meta m;
         memset(&m, 0x5A, sizeof(m));
+        (void)(codec == C_BP32    ? varintBP128Encode32(g_decoy_dst, g_decoy32, n, &m)
+               : codec == C_BP64  ? varintBP128Encode64(g_decoy_dst, g_decoy, n, &m)
+               : codec == C_BPD32 ? varintBP128DeltaEncode32(g_decoy_dst, g_decoy32, n, &m)
+                                  : varintBP128DeltaEncode64(g_decoy_dst, g_decoy, n, &m));
         o->written =
             codec == C_BP32    ? varintBP128Encode32(dst, x32, n, &m)
             : codec == C_BP64  ? varintBP128Encode64(dst, xs, n, &m)
@@ -476,6 +519,8 @@ static void encode_into(int codec, long param, uint8_t *dst, const uint64_t *xs,
     case C_ADAPTIVE: {
         varintAdaptiveMeta m;
         memset(&m, 0, sizeof(m));
+        (void)(param < 0 ? varintAdaptiveEncode(g_decoy_dst, g_decoy, n, &m)
+                         : varintAdaptiveEncodeWith(g_decoy_dst, g_decoy, n, (varintAdaptiveEncodingType)param, &m));
         o->written = param < 0 ? varintAdaptiveEncode(dst, xs, n, &m)
                                : varintAdaptiveEncodeWith(
                                      dst, xs, n,
